@@ -123,6 +123,7 @@ class Sim:
         self.bg2 = None
         self.bg2_sink = None
         self.bg2_expected = []
+        self.bg_sel = BG
 
     def events_of(self, trace, before_t=None, after_t=None, sels=None):
         """Events of the root probe's selectors; before_t: the probe ends at that time;
@@ -264,7 +265,12 @@ class Sim:
         from ptera.probe import Probe
 
         if on and self.bg is None:
-            self.bg = Probe(G.canonical(BG), env=self.env)
+            # on == "same": an independent probe built from the very text of the root probe's
+            # first selector
+            self.bg_sel = SEL if on == "same" else BG
+            if on == "same":
+                self.flags.add("bg-same-selector")
+            self.bg = Probe(G.canonical(self.bg_sel), env=self.env)
             self.bg_sink = self.bg.accum()
             self.bg_expected = []
             self.bg.__enter__()
@@ -307,7 +313,7 @@ class Sim:
             self.flags.add("events-outside")
             self.flags.add("frames-outlive-deactivation")
         if self.bg is not None:
-            self.bg_expected.extend(e for g in M.immediate_events(BG, trace) for e in g)
+            self.bg_expected.extend(e for g in M.immediate_events(self.bg_sel, trace) for e in g)
         if self.bg2 is not None:
             self.bg2_expected.extend(e for g in M.immediate_events(BG2, trace) for e in g)
         err = []
@@ -365,7 +371,7 @@ class Sim:
                 self.flags.add("events-inside")
             self.flags.add("activated-inside-call")
         if bg_was_on:
-            self.bg_expected.extend(e for g in M.immediate_events(BG, trace) for e in g)
+            self.bg_expected.extend(e for g in M.immediate_events(self.bg_sel, trace) for e in g)
         bg_new = with_bg and self.bg2 is None and t_cb is not None
         if bg_new:
             self.bg2_expected = self.events_of(trace, after_t=t_cb, sels=[BG2])
@@ -418,7 +424,7 @@ class Sim:
         trace = M.simulate(roots)
         reached = any(b.act.fn == "cb" for b in trace.binds)
         if self.bg is not None:
-            self.bg_expected.extend(e for g in M.immediate_events(BG, trace) for e in g)
+            self.bg_expected.extend(e for g in M.immediate_events(self.bg_sel, trace) for e in g)
         if self.bg2 is not None:
             self.bg2_expected.extend(e for g in M.immediate_events(BG2, trace) for e in g)
         if self.events_of(trace):
@@ -453,7 +459,7 @@ class Sim:
         elif ev:
             self.flags.add("events-outside")
         if self.bg is not None:
-            self.bg_expected.extend(e for g in M.immediate_events(BG, trace) for e in g)
+            self.bg_expected.extend(e for g in M.immediate_events(self.bg_sel, trace) for e in g)
         if self.bg2 is not None:
             self.bg2_expected.extend(e for g in M.immediate_events(BG2, trace) for e in g)
         F.drive(copy.deepcopy(roots))
@@ -628,7 +634,7 @@ def make_machine(rec):
         def redeactivate(self):
             self._do(("redeactivate",))
 
-        @rule(on=st.booleans())
+        @rule(on=st.sampled_from([True, False, "same"]))
         def bg(self, on):
             self._do(("bg", on))
 
